@@ -2,18 +2,18 @@
 from pyvc.vc import contract, bounded
 from contracts.mcmc_gibbs import gibbs_take_step
 
-contract("C03", "gibbs_take_step", native=False)(gibbs_take_step)
+contract("C03", "gibbs_take_step", native=False, replay_with="chain_invariant_native")(gibbs_take_step)
 
 
 from contracts.mcmc_pca import pca_take_step
-contract("C03", "pca_take_step", native=False)(pca_take_step)
+contract("C03", "pca_take_step", native=False, replay_with="chain_invariant_native")(pca_take_step)
 
 
 from contracts.mcmc_hmc import hmc_take_step
-contract("C03", "hmc_take_step", native=False)(hmc_take_step)
+contract("C03", "hmc_take_step", native=False, replay_with="chain_invariant_native")(hmc_take_step)
 
 
 from contracts.mcmc_ensemble import ensemble_advance_walker
-contract("C03", "ensemble_advance_walker", native=False)(ensemble_advance_walker)
+contract("C03", "ensemble_advance_walker", native=False, replay_with="chain_invariant_native")(ensemble_advance_walker)
 
 from contracts.mcmc_native import chain_invariant_native, shared_inputs_native  # noqa: registers the bounded layer
